@@ -640,6 +640,10 @@ func (c *Conn) handleCall(ctx context.Context, call rpccp.Call, releaseCall capn
 		return nil
 	case rpccp.MessageTarget_Which_promisedAnswer:
 		tgtAns := c.answers[p.target.promisedAnswer]
+		if tgtAns == ans {
+			// A call cannot be addressed to its own answer.
+			tgtAns = nil
+		}
 		if tgtAns == nil || tgtAns.flags&finishReceived != 0 {
 			ans.ret = rpccp.Return{}
 			ans.sendMsg = nil
